@@ -48,6 +48,10 @@ Definition add_value_mods (m : list marg) (s : sym) : sym :=
 
 Section WithLib.
   Variable root : list cdef.
+  (* late = true: pymoca's definition-order rule is modelled (ilookup below); late = false: every nested
+     class counts as instantiated before its users (what the code does when nested classes are defined
+     before the classes that use them).  The real code is late = true. *)
+  Variable late : bool.
 
   (* orig_class.find_class(extends.component, check_builtin_classes=True), tree.py:277 *)
   Definition find_base (c : cdef) (lex : path) (ref : path) : res (cdef * path) :=
@@ -165,6 +169,49 @@ Section WithLib.
   Definition poison (a : marg) : marg :=
     if is_marked a then MArg None [iValueSym] (m_mods a) else a.
 
+  (* Definition-order rule.  build_instance_tree instantiates the nested classes of an instance eagerly,
+     in dictionary order (403-426), each with the instance as parent.  While nested class number i is
+     being instantiated, the entries number >= i of the instance's dictionary are still PARSED classes:
+     a lookup that finds one of them copies the parsed class, whose .parent is its LEXICAL parent
+     (ast.py:720-723), so it is instantiated in its lexical scope and does not see the classes that the
+     enclosing model inherits; it is not an already instantiated class either.  f_limit of an instance
+     frame records i for the parent chain of nested class i. *)
+  Fixpoint od_index (n : ident) (es : list entry) (k : nat) : option nat :=
+    match es with
+    | [] => None
+    | e :: es' => if Pos.eqb (e_key e) n then Some k else od_index n es' (S k)
+    end.
+
+  Definition set_limit (j : nat) (fr : frame) : frame :=
+    mkFrame (f_owner fr) (f_inst fr) (f_entries fr) (Some j).
+
+  Fixpoint ilookup (S : scope) (ref : path) {struct S} : option (cdef * path * scope * bool) :=
+    match ref with
+    | [] => None
+    | n :: rest =>
+        match S with
+        | [] => None
+        | fr :: S' =>
+            match od_get e_key Pos.eqb n (f_entries fr), od_index n (f_entries fr) 0 with
+            | Some e, Some j =>
+                match descend (e_def e) (e_lex e) rest with
+                | Some (c, lex) =>
+                    let is_late := f_inst fr && match f_limit fr with Some L => (L <=? j)%nat | None => false end in
+                    if is_late
+                    then Some (c, lex, descend_frames (e_def e) (e_lex e) rest ++ lex_scope root (e_lex e), false)
+                    else Some (c, lex,
+                               descend_frames (e_def e) (e_lex e) rest
+                                 ++ (if f_inst fr then set_limit j fr else fr) :: S',
+                               f_inst fr)
+                | None => ilookup S' ref
+                end
+            | _, _ => ilookup S' ref
+            end
+        end
+    end.
+
+  Definition mlookup (S : scope) (ref : path) := if late then ilookup S ref else lookup S ref.
+
   (* 441-561: the loop over the symbols of the class; `rec` = build with the remaining fuel,
      `ebi` = extends_builtin with the remaining fuel.  Returns the instantiated symbols and what is left
      of the two modification lists. *)
@@ -189,7 +236,7 @@ Section WithLib.
                      (s_mods s ++ flat_map to_symbol_mods (filter mine menv)
                               ++ flat_map to_symbol_mods (filter mine extra)) :: acc)
           else
-            match lookup me (s_type s) with
+            match mlookup me (s_type s) with
             | None => Err ClassNotFound
             | Some (tc, tlex, tparent, in_inst) =>
                 (* 499-561 *)
@@ -225,7 +272,7 @@ Section WithLib.
         if negb (forallb (fun a => mem_id (head_id (m_target a)) names
                                    || mem_id (head_id (m_target a)) ATTRIBUTES) (x_menv x ++ extra0))
         then Err ModTargetNotFound else
-        let me : scope := mkFrame (Some (c_name c)) true (x_classes x) :: parent in
+        let me : scope := mkFrame (Some (c_name c)) true (x_classes x) None :: parent in
         let myref := scope_ref me in
         r <- build_syms (build f) (extends_builtin f) me myref (x_syms x) (x_menv x) extra0 [] ;;
         Ok (Inst myref (x_kind x) (fst r) (x_eqs x) (snd r))
@@ -456,7 +503,7 @@ Definition outcome_eqb (a b : outcome) : bool :=
   | _, _ => false
   end.
 
-Definition model_outcome (lib : list cdef) (top : path) : outcome := outcome_of (flatten lib top).
+Definition model_outcome (lib : list cdef) (top : path) : outcome := outcome_of (flatten lib true top).
 
 Definition check_case (c : list cdef * path * outcome) : bool :=
   match c with (lib, top, o) => outcome_eqb (model_outcome lib top) o end.
